@@ -559,7 +559,8 @@ class SimplifiedRegexMatcher(RegexMatcher):
     def __init__(self, func, pattern, step_type=None):
         assert not (pattern.startswith("^") or pattern.endswith("$")), \
             "Regular expression should not use begin/end-markers: "+ pattern
-        expression = r"^%s$" % pattern
+        # -- ENSURE: A top-level alternation "a|b" is anchored as a whole.
+        expression = r"^(?:%s)$" % pattern
         super(SimplifiedRegexMatcher, self).__init__(func, expression, step_type)
 
 
